@@ -165,3 +165,8 @@ func VerifResetRib() {
 func VerifDnlLen(d *DeadNonceList) (entries int, queued int) {
 	return len(d.list), d.expirationQueue.Len()
 }
+
+// VerifResetReadvertisers forgets the registered RIB readvertisers (between histories).
+func VerifResetReadvertisers() {
+	readvertisers = make([]RibReadvertise, 0)
+}
